@@ -31,11 +31,11 @@ def rowsFor (t : List (String × String × String × List String)) (fs : List St
 
 def fns (t : List (String × String × String × List String)) : List String := t.map (·.1)
 
-/-- P1: no row at all for `next` / `next_by` / the terminals of a BehaviorSubject: the only cell-held call of the file is
-    the greeting of a new subscriber (`observer.next(self.value.rc_deref().clone())`) -/
+/-- P1: no row at all for behavior_subject.rs: neither `next` / `next_by` / the terminals of a BehaviorSubject nor (since
+    the repair of the greeting, DESIGN II.3: the value is read out first, `let value = self.value.rc_deref().clone();
+    observer.next(value)`) the greeting of a new subscriber calls anything while the value cell is held -/
 theorem P1_behavior_next_releases_value_cell :
-    behavior_subject =
-      [("<BehaviorSubject<Item,Subject> as Observable>::actual_subscribe", "self.value", "statement", ["next"])] := rfl
+    behavior_subject = [] := rfl
 
 /-- P2: the composite: `is_closed` asks its children under the cell, `retain` prunes under it; `unsubscribe` and `append` are
     NOT in the table — they call their children with the cell released; the blanket impl for an `Option` cell holds it -/
